@@ -427,7 +427,7 @@ func (s *reportSim) Run() []bool {
 
 		if nWarriors == 1 && aliveCount == 0 {
 			break
-		} else if nWarriors > 1 && aliveCount == 1 {
+		} else if nWarriors > 1 && aliveCount <= 1 {
 			break
 		}
 	}
